@@ -1185,7 +1185,9 @@ MANIFEST_ENTRY = {
              'subset: the zeroed coefficient vector solves the normal equations of the re-fit (`ls_removal_residual_solves`, no rank assumption), every '
              're-fit finds 0 when the columns are independent (`ls_removal_idempotent`), and when ALL columns are removed (tilt) zero is the minimum-norm '
              'solution for EVERY rank (`tilt_removal_idempotent_any_rank`; checked on the real code on single-row / single-column / one-sample maps). '
-             'Degenerate extents (1x1, 1xN, Nx1, 2-sample axes) run through every operation.'),
+             'Degenerate extents (1x1, 1xN, Nx1, 2-sample axes) run through every operation. `history_coherent_and_validity`: ONE induction over any '
+             'history of calls of the current source gives coherence of the coordinate state AND unchanged validity of every stored sample as long as '
+             'no call of {mask, fill, spike_clip, crop, pad, filter} occurs (`keeper_call_keeps_validity` per call), from the two translated tables.'),
     'note': ('partial: the effect lists abstract array contents to affine grids (shape, origin, spacing) — that the NumPy '
              'statements have those effects is translated syntactically and validated by the history correspondence, not proved; '
              '`filter` values, pvr values and plotting are not modelled; make_xy_grid (translated by C04) / lstsq bodies are compared, not translated here; validity preservation is proved for finite subtracted terms only; np.linalg.lstsq is trusted to return the normal-equation '
